@@ -6,9 +6,11 @@ package main
 // reference expansion are compared with prefixes of the input's.
 
 import (
+	"bufio"
 	"bytes"
 	"context"
 	"encoding/binary"
+	"encoding/hex"
 	"fmt"
 	"os"
 	"os/exec"
@@ -293,10 +295,108 @@ type fileStats struct {
 	why            map[string]int
 }
 
-func files(seed uint64, n int, bin, tmp string) {
+// mutate returns a copy of a synthesized file with one byte changed inside the VALUES of a sample-table or header box
+// (stts ctts stsc stsz stco co64 stss sdtp elst: behind the entry count; tkhd mvhd mdhd: behind version/flags), so that the box
+// structure stays decodable while counts, deltas, sizes, offsets, ids, timescales or durations become inconsistent. The malformed
+// stream of the whole-tool correspondence: outcome class and, on success, every output byte must agree with the model.
+func mutate(rng *hx.Rng, data []byte) ([]byte, string) {
+	type cand struct {
+		lo, hi int
+		name   string
+	}
+	var cs []cand
+	for i := 4; i+4 <= len(data); i++ {
+		nm := string(data[i : i+4])
+		skip := 0
+		switch nm {
+		case "stts", "ctts", "stsc", "stco", "co64", "stss", "elst":
+			skip = 16
+		case "stsz":
+			skip = 20
+		case "sdtp", "tkhd", "mvhd", "mdhd":
+			skip = 12
+		default:
+			continue
+		}
+		b := i - 4
+		sz := int(binary.BigEndian.Uint32(data[b:]))
+		if sz >= skip+1 && b+sz <= len(data) {
+			cs = append(cs, cand{b + skip, b + sz, nm})
+		}
+	}
+	if len(cs) == 0 {
+		return nil, ""
+	}
+	c := cs[rng.Intn(len(cs))]
+	p := c.lo + rng.Intn(c.hi-c.lo)
+	out := append([]byte(nil), data...)
+	old := out[p]
+	switch rng.Intn(4) {
+	case 0:
+		out[p] = byte(rng.Intn(4))
+	case 1:
+		out[p] ^= 1 << uint(rng.Intn(8))
+	case 2:
+		out[p] = 0xff
+	default:
+		out[p] = old + byte(rng.Range(1, 3))
+	}
+	if out[p] == old {
+		out[p] = old + 1
+	}
+	return out, fmt.Sprintf("%s+%d:%02x->%02x", c.name, p-c.lo, old, out[p])
+}
+
+func files(seed uint64, n int, bin, tmp, casesPath string) {
 	rng := hx.NewRng(seed ^ 0xf11e)
 	_ = os.MkdirAll(tmp, 0o755)
+	// whole-tool correspondence: every run (input file bytes, ms, outcome class, output file bytes) as a case line for the
+	// model driver (op tool: the extracted model rebuilds the output FILE from the input bytes alone)
+	var cw *bufio.Writer
+	if casesPath != "" {
+		cf, err := os.Create(casesPath)
+		if err != nil {
+			panic(err)
+		}
+		defer cf.Close()
+		cw = bufio.NewWriterSize(cf, 1<<20)
+		defer cw.Flush()
+	}
+	caseNr := 0
+	emitCase := func(ms uint64, in []byte, class string, outPath string) {
+		if cw == nil {
+			return
+		}
+		oh := "-"
+		if class == "ok" {
+			if od, err := os.ReadFile(outPath); err == nil && len(od) > 0 {
+				oh = hex.EncodeToString(od)
+			}
+		}
+		fmt.Fprintf(cw, "K\tt%d\ttool\t%d\t%s\t%s\t%s\n", caseNr, ms, hex.EncodeToString(in), class, oh)
+		caseNr++
+	}
+	runTool := func(ms uint64, inPath, outPath string) (class string, stderrText string, timedOut bool) {
+		_ = os.Remove(outPath)
+		ctx, cancel := context.WithTimeout(context.Background(), 20*time.Second)
+		defer cancel()
+		cmd := exec.CommandContext(ctx, bin, "-d", fmt.Sprint(ms), inPath, outPath)
+		var stderr bytes.Buffer
+		cmd.Stderr = &stderr
+		err := cmd.Run()
+		timedOut = ctx.Err() == context.DeadlineExceeded
+		se := stderr.String()
+		if err == nil {
+			return "ok", se, false
+		}
+		if strings.Contains(se, "panic:") || strings.Contains(se, "goroutine ") || timedOut {
+			return "panic", se, timedOut
+		}
+		return "err", se, false
+	}
 	st := fileStats{why: map[string]int{}}
+	malformed := 0
+	mrng := hx.NewRng(seed ^ 0xbadf11e) // own stream: the valid files do not depend on -o
 	opt := tbl.GenOpt{MaxEntries: 4, MaxChunks: 3, MaxSpc: 4, ZeroDeltaPct: 0, VaryIDPct: 30, BigPct: 0}
 	for fi := 0; fi < n; fi++ {
 		nt := rng.Range(1, 3)
@@ -429,21 +529,14 @@ func files(seed uint64, n int, bin, tmp string) {
 			st.runs++
 			evals++
 			outPath := filepath.Join(tmp, fmt.Sprintf("out_%d.mp4", fi))
-			_ = os.Remove(outPath)
-			ctx, cancel := context.WithTimeout(context.Background(), 20*time.Second)
-			cmd := exec.CommandContext(ctx, bin, "-d", fmt.Sprint(ms), inPath, outPath)
-			var stderr bytes.Buffer
-			cmd.Stderr = &stderr
-			err := cmd.Run()
-			timedOut := ctx.Err() == context.DeadlineExceeded
-			cancel()
+			class, se, _ := runTool(ms, inPath, outPath)
+			emitCase(ms, data, class, outPath)
 			desc := describe(tracks, mdatFirst, ms)
 			if wild {
 				desc += " ; wild chunk layout"
 			}
-			if err != nil {
-				se := stderr.String()
-				if strings.Contains(se, "panic:") || strings.Contains(se, "goroutine ") || timedOut {
+			if class != "ok" {
+				if class == "panic" {
 					line := se
 					if i := strings.Index(se, "panic:"); i >= 0 {
 						line = se[i:]
@@ -470,9 +563,27 @@ func files(seed uint64, n int, bin, tmp string) {
 			}
 			checkOutput(tracks, xs, ref, refX, ms, data, outPath, desc)
 		}
+		// malformed stream (correspondence only: the property is about well-formed inputs): one mutated copy of every
+		// second file, at three durations
+		if cw != nil && fi%2 == 0 {
+			if md, _ := mutate(mrng, data); md != nil {
+				mPath := filepath.Join(tmp, fmt.Sprintf("mut_%d.mp4", fi))
+				if err := os.WriteFile(mPath, md, 0o644); err != nil {
+					panic(err)
+				}
+				outPath := filepath.Join(tmp, fmt.Sprintf("out_%d.mp4", fi))
+				for _, ms := range []uint64{grid[1]/2 + 1, grid[3], grid[4]} {
+					class, _, _ := runTool(ms, mPath, outPath)
+					emitCase(ms, md, class, outPath)
+					malformed++
+				}
+				_ = os.Remove(mPath)
+			}
+		}
 		_ = os.Remove(inPath)
 		_ = os.Remove(filepath.Join(tmp, fmt.Sprintf("out_%d.mp4", fi)))
 	}
+	fmt.Fprintf(out, "TOOLCASES\t%d\t%d\n", caseNr, malformed)
 	fmt.Fprintf(out, "EVALS\t%d\n", evals)
 	fmt.Fprintf(out, "STATS\truns=%d\tsucceeded=%d\trefused=%d\t%v\n", st.runs, st.ok, st.errs, st.why)
 	out.Flush()
